@@ -539,7 +539,9 @@ def _extract_item(repo: str, header: str, tpl_name: str) -> Tuple[str, UnitInfo]
     raise ExtractError("item %s %s not found in %s" % (kind, name, kv["file"]))
 
 
-def assemble(repo: str, template_path: str) -> Assembled:
+def assemble(repo: str, template_path: str, prop: Optional[str] = None) -> Assembled:
+    """`prop`: the property being checked; known-finding probes (units named finding_*) that are not tagged with it
+    (props=...) are left out, so a finding is reported only under the properties it belongs to."""
     tpl = open(template_path, encoding="utf-8").read().split("\n")
     out: List[str] = []
     units: List[UnitInfo] = []
@@ -551,7 +553,7 @@ def assemble(repo: str, template_path: str) -> Assembled:
             inc = ln.strip().split(None, 1)[1].strip()
             ipath = os.path.join(os.path.dirname(template_path), inc)
             try:
-                sub = assemble(repo, ipath)
+                sub = assemble(repo, ipath, prop)
             except OSError as e:
                 raise ExtractError("cannot include %s: %s" % (inc, e))
             base = len(out)
@@ -579,6 +581,13 @@ def assemble(repo: str, template_path: str) -> Assembled:
             if j >= len(tpl):
                 raise ExtractError("unterminated //@unit in %s" % name)
             optional = ln.strip().startswith("//@unit?")
+            hm0 = re.match(r"//@unit\??\s+(\S+)\s+(.*)$", ln.strip())
+            if hm0 and hm0.group(1).startswith("finding_") and prop:
+                tagged = [x for x in _parse_kv(hm0.group(2)).get("props", "").split(",") if x]
+                if tagged and prop not in tagged:
+                    out.append("// probe %s belongs to %s; not part of the %s check" % (hm0.group(1), ",".join(tagged), prop))
+                    i = j + 1
+                    continue
             try:
                 text, info = _apply_unit(repo, ln.replace("//@unit?", "//@unit", 1), block, name)
             except ExtractError as e:
